@@ -9,6 +9,11 @@
 //   glik scale fail m N y P R              -> GaussianLikelihood::likelihood on a measurement model whose calls can fail
 //   sis seed N lin circ K D prior ratio u.. E (w0.. x0..) x E (ncmd cmd.. freeze valid reset shift l_0..l_{N-1}) x K
 //                                          -> the real SIS filter thread, scripted models, K steps
+//   sis2 …                                 -> as `sis`, every step with three command lists: (ncmd cmd.. nmid mid.. nlate late.. freeze …);
+//                                             `mid` commands are issued from inside freeze_measurements() (after the prediction has read its
+//                                             skip flag, before the correction reads its own), `late` commands from inside the likelihood
+//                                             evaluation (after the correction has read its flag) or, when that does not run, from log();
+//                                             command 7 = skip("measurement", true), which ParticleFilter::skip must refuse
 //
 // The draw `u1` is obtained from a twin generator (same seed, same distribution) run in lock-step.
 #include "common.hpp"
@@ -35,12 +40,23 @@
 #include <random>
 #include <algorithm>
 #include <numeric>
+#include <functional>
 
 using namespace bfl;
 using namespace Eigen;
 using vh::Toks; using vh::Out;
 
 // ----------------------------------------------------------------------------- helpers
+
+// log-sum-exp computed here, independently of utils::log_sum_exp (which is code under test)
+static double twin_lse(const VectorXd& x) {
+    double m = -std::numeric_limits<double>::infinity();
+    for (long i = 0; i < x.size(); ++i) if (x(i) > m) m = x(i);
+    if (!std::isfinite(m)) return m;
+    double s = 0.0;
+    for (long i = 0; i < x.size(); ++i) s += std::exp(x(i) - m);
+    return m + std::log(s);
+}
 
 static double twin_u1(std::mt19937_64& g, long n) {
     std::uniform_real_distribution<double> d(0.0, 1.0 / n);
@@ -50,11 +66,14 @@ static double twin_u1(std::mt19937_64& g, long n) {
 // Scale of the particle contents (the property constrains only *copies*: any magnitude must survive bit for bit).
 // Power-of-two factors keep the entries exact and distinct; classes: 0 plain, 1 covariance 2^-70 (~1e-21 .. 1e-16),
 // 2 everything 2^-70, 3 everything 2^33, 4 covariance exactly zero, 5 mean 2^-70 and covariance 2^40, 6 state 2^-70,
-// 7 mean exactly zero.  The state is never exactly zero, so a column can always be identified by its first entry.
+// 7 mean exactly zero, 8 near-duplicate columns: consecutive particles differ by 2^-36 (1.5e-11) in entries of size 1e3, i.e.
+// they are isApprox-equal (1e-12 relative) but not equal - a copy taken from a neighbour is not a copy.
+// The state is never exactly zero, so a column can always be identified by its first entry.
 struct Scales { double s, m, c; int cls; };
 static Scales scales_of(unsigned long salt) {
     const double t = std::ldexp(1.0, -70), b = std::ldexp(1.0, 33);
-    switch (salt % 8) {
+    switch (salt % 9) {
+        case 8: return {1.0, 1.0, 1.0, 8};      // near-duplicate columns: see fill_set
         case 1: return {1.0, 1.0, t, 1};
         case 2: return {t, t, t, 2};
         case 3: return {b, b, b, 3};
@@ -69,6 +88,18 @@ static const Scales kPlain = {1.0, 1.0, 1.0, 0};
 
 // distinct, exactly representable column contents: particle i, row r (column c of its covariance)
 static void fill_set(ParticleSet& p, double base, const Scales& sc = kPlain) {
+    if (sc.cls == 8) {
+        const double e = std::ldexp(1.0, -36);
+        for (long i = 0; i < (long)p.state().cols(); ++i) {
+            for (long r = 0; r < p.state().rows(); ++r) p.state()(r, i) = (base + 1000.0 + r) + (i + 1) * e;
+            for (long r = 0; r < p.mean().rows(); ++r) p.mean()(r, i) = (base + 1000.0 + r + 0.25) + (i + 1) * e;
+        }
+        long dc8 = p.dim_covariance;
+        for (long i = 0; i < (long)p.components; ++i)
+            for (long c = 0; c < dc8; ++c)
+                for (long r = 0; r < dc8; ++r) p.covariance()(r, dc8 * i + c) = (base + 1000.0 + 10.0 * r + c + 0.5) + (i + 1) * e;
+        return;
+    }
     for (long i = 0; i < (long)p.state().cols(); ++i) {
         // (the term (i+1) 2^-30 gives every entry a long mantissa: a detour through single precision would not be exact)
         const double lowbits = (i + 1) * std::ldexp(1.0, -30);
@@ -174,7 +205,7 @@ static std::string rwp_call(Resampling& r, std::mt19937_64& twin, double ratio, 
     if (m < 1 || k < 0) { o.s("ratio-out-of-range"); return o.str(); }
     VectorXd kept(m);
     for (long i = 0; i < m; ++i) kept(i) = lw[k + i];
-    double lse = utils::log_sum_exp(kept);
+    double lse = twin_lse(kept);
     double u1 = twin_u1(twin, m);
     const long call0 = g_init_calls;                    // the draws of THIS call come from the call0-th initialisation
     r.resample(cor, res, par);
@@ -191,7 +222,7 @@ static std::string rwp_call(Resampling& r, std::mt19937_64& twin, double ratio, 
         // of state, mean and covariance must match bit for bit
         long id = 0;
         double v = res.state().rows() ? res.state()(0, j) : 0.0;
-        double qc = v / sc.s / 1000.0, qf = (v - init_base(call0)) / 1000.0;
+        double qc = (sc.cls == 8) ? (v - 1000.0) * std::ldexp(1.0, 36) : v / sc.s / 1000.0, qf = (v - init_base(call0)) / 1000.0;
         long ci = (std::isfinite(qc) && std::fabs(qc) < 1e15) ? std::llround(qc) - 1 : -1;
         long fi = (std::isfinite(qf) && std::fabs(qf) < 1e15) ? std::llround(qf) - 1 : -1;
         if (ci >= 0 && ci < n && col_same(res, j, cor0, ci)) id = ci + 1;
@@ -285,6 +316,11 @@ struct Script {
     long epoch = 0;          // number of initialisations done so far
     long step = 0;           // global index of the step being executed (set by the filter subclass)
     long freeze_calls = 0, lik_calls = 0, motion_calls = 0;
+    std::vector<std::vector<int>> cmds_mid, cmds_late;       // commands arriving during the step (sis2)
+    std::function<void(int)> issue;                          // issues one skip command on the filter
+    bool late_done = false;
+    void issue_mid() { if (issue && step < (long)cmds_mid.size()) for (int c : cmds_mid[step]) issue(c); }
+    void issue_late() { if (issue && !late_done && step < (long)cmds_late.size()) { late_done = true; for (int c : cmds_late[step]) issue(c); } }
 };
 
 struct SInit : public ParticleSetInitialization {
@@ -311,7 +347,7 @@ struct SState : public StateModel {
 
 struct SMeas : public MeasurementModel {
     explicit SMeas(Script* s) : s_(s) {}
-    bool freeze(const Data&) override { ++s_->freeze_calls; return s_->freeze[s_->step]; }
+    bool freeze(const Data&) override { ++s_->freeze_calls; s_->issue_mid(); return s_->freeze[s_->step]; }
     std::pair<bool, Data> measure(const Data&) const override { return std::make_pair(true, Data(MatrixXd(MatrixXd::Zero(1, 1)))); }
     std::pair<bool, Data> predictedMeasure(const Ref<const MatrixXd>& x) const override { return std::make_pair(true, Data(MatrixXd(MatrixXd::Zero(1, x.cols())))); }
     std::pair<bool, Data> innovation(const Data&, const Data&) const override { return std::make_pair(true, Data(MatrixXd(MatrixXd::Zero(1, 1)))); }
@@ -322,6 +358,7 @@ struct SLik : public LikelihoodModel {
     explicit SLik(Script* s) : s_(s) {}
     std::pair<bool, VectorXd> likelihood(const MeasurementModel&, const Ref<const MatrixXd>&) override {
         ++s_->lik_calls;
+        s_->issue_late();
         // like the shipped GaussianLikelihood, an invalid likelihood comes with a vector of size 1
         if (!s_->valid[s_->step]) return std::make_pair(false, VectorXd(VectorXd::Zero(1)));
         return std::make_pair(true, s_->lik[s_->step]);
@@ -388,20 +425,25 @@ struct SSIS : public SIS {
     void log() override {                // called by filtering_step() after the normalisation, before the resampling decision
         ++log_calls_;
         lw_.assign(cor_particle_.weight().data(), cor_particle_.weight().data() + cor_particle_.weight().size());
+        s_->issue_late();                // the likelihood was not evaluated in this step: the late commands arrive here
         SIS::log();
     }
-    void filtering_step() override {
-        long k = g_;
-        s_->step = k;
-        for (int cmd : s_->cmds[k]) switch (cmd) {     // skip commands issued between the previous step and this one
+    void issue(int cmd) {
+        switch (cmd) {
             case 1: skip_ok_ &= skip("prediction", true); break;
             case 2: skip_ok_ &= skip("prediction", false); break;
             case 3: skip_ok_ &= skip("correction", true); break;
             case 4: skip_ok_ &= skip("correction", false); break;
             case 5: skip_ok_ &= skip("all", true); break;
             case 6: skip_ok_ &= skip("all", false); break;
+            case 7: { bool r = skip("measurement", true); refused_ok_ &= !r; break; }   // unknown to ParticleFilter::skip: must be refused
             default: break;
         }
+    }
+    void filtering_step() override {
+        long k = g_;
+        s_->step = k; s_->late_done = false;
+        for (int cmd : s_->cmds[k]) issue(cmd);        // skip commands issued between the previous step and this one
         *log_ = ResLog(); log_calls_ = 0; lw_.clear();
         long stepno = step_number();
         SIS::filtering_step();
@@ -448,15 +490,17 @@ struct SSIS : public SIS {
         o.n(p.weight().rows()); for (long i = 0; i < p.weight().rows(); ++i) o.d(p.weight()(i));
         o.n(p.state().cols()); for (long i = 0; i < p.state().cols(); ++i) o.d(p.state().rows() ? p.state()(0, i) : 0.0);
         o.n(stepno).n(log_calls_);
+        // the two skip flags after the step, as the filter's own objects report / obey them
+        o.n(prediction().is_skipping() ? 1 : 0).n(refused_ok_ ? 1 : 0);
         blocks.push_back(o.str());
         if (s_->reset[k]) reset();       // a reset command arrives during this step: the recursion re-initialises before the next one
         ++g_;
     }
-    Script* s_; ResLog* log_; bool skip_ok_ = true, copies_ok_ = true, prior_ = false; std::vector<std::string> blocks;
+    Script* s_; ResLog* log_; bool skip_ok_ = true, copies_ok_ = true, prior_ = false, refused_ok_ = true; std::vector<std::string> blocks;
     long g_ = 0, log_calls_ = 0; std::vector<double> lw_;
 };
 
-static std::string op_sis(Toks& t) {
+static std::string op_sis(Toks& t, bool ext) {
     Script sc; ResLog log;
     unsigned long seed = t.nat(); long n = t.nat(), lin = t.nat(), circ = t.nat(), K = t.nat(), D = t.nat();
     bool prior = t.flag(); double ratio = t.dbl();
@@ -468,7 +512,11 @@ static std::string op_sis(Toks& t) {
     for (long e = 0; e < E; ++e) { sc.w0s.push_back(t.vec(n)); sc.x0s.push_back(t.vec(n)); }
     for (long k = 0; k < K; ++k) {
         long nc = t.nat(); std::vector<int> cs; for (long i = 0; i < nc; ++i) cs.push_back((int)t.nat());
-        sc.cmds.push_back(cs); sc.freeze.push_back(t.flag()); sc.valid.push_back(t.flag()); sc.reset.push_back(t.flag()); sc.shift.push_back(t.dbl());
+        sc.cmds.push_back(cs);
+        std::vector<int> cm, cl;
+        if (ext) { long nm = t.nat(); for (long i = 0; i < nm; ++i) cm.push_back((int)t.nat()); long nl = t.nat(); for (long i = 0; i < nl; ++i) cl.push_back((int)t.nat()); }
+        sc.cmds_mid.push_back(cm); sc.cmds_late.push_back(cl);
+        sc.freeze.push_back(t.flag()); sc.valid.push_back(t.flag()); sc.reset.push_back(t.flag()); sc.shift.push_back(t.dbl());
         sc.lik.push_back(t.vec(n));
     }
     t.done();
@@ -483,6 +531,7 @@ static std::string op_sis(Toks& t) {
     else res.reset(new SResampling(static_cast<unsigned int>(seed), n, &log));
     SSIS f(&sc, &log, (unsigned int)n, lin, circ, std::move(init), std::move(pred), std::move(corr), std::move(res));
     f.prior_ = prior;
+    sc.issue = [&f](int c) { f.issue(c); };
     bool ok = f.boot();
     f.run();
     ok = f.wait() && ok;
@@ -604,7 +653,8 @@ int main() {
         if (op == "rs") { out = op_rs(t); return true; }
         if (op == "rwp") { out = op_rwp(t); return true; }
         if (op == "seq") { out = op_seq(t); return true; }
-        if (op == "sis") { out = op_sis(t); return true; }
+        if (op == "sis") { out = op_sis(t, false); return true; }
+        if (op == "sis2") { out = op_sis(t, true); return true; }
         if (op == "glik") { out = op_glik(t); return true; }
         if (op == "pipe") { out = op_pipe(t); return true; }
         return false;
